@@ -181,6 +181,12 @@ def run(ck, tier):
     ck.guard(r2_who_may_mutate, ck, cx)
     ck.guard(r3_no_shared_framing_state, ck, cx)
     ck.guard(r4_only_checked_frames_execute, ck, cx)
+    ck.rule('R5', 'a write request changes exactly what its fields declare: decode() of every write request reads the spec layout, no more and no fewer values than the quantity field says (shared with C01 R3)')
+    from .c01 import shared_layout_findings
+    n5 = ck.guard(shared_layout_findings, ck, cx, 'R5', ('WriteMultipleCoilsRequest', 'WriteMultipleRegistersRequest', 'ReadWriteMultipleRegistersRequest',
+                                                         'WriteSingleCoilRequest', 'WriteSingleRegisterRequest', 'MaskWriteRegisterRequest', 'WriteFileRecordRequest'),
+                  'a malformed frame then writes cells its header does not declare', ('R3',))
+    ck.floor('R5', n5 or 0, 7, 'decode layout obligations of the write requests')
     ck.assume('statements of the receive loops other than the framer call and the transport read are treated as non-raising (logging, attribute reads)')
     ck.assume('what a decoded-but-nonsensical PDU does inside decode() is shown to be contained, not absent; resource exhaustion is not decided')
     return cx.idx
